@@ -222,7 +222,7 @@ _ADD = {
     "C08": "; plus: deletion observed through the watcher; two terms ended by the same cause; restart while a Create of the previous run is in flight; a second Start on a running leader; Stop racing the grace-period expiry inside the expiry handler (C11 family)",
     "C09": "; plus: every watcher the store handed out is stopped after the stop; a reconnect notification placed at every switch point of a running stop call (no store operation after the return)",
     "C10": "; priorities up to 2^62; plus a late acquisition round of a leader that was preempted by a higher priority meanwhile (Create latencies 150/600 ms)",
-    "C11": "; plus: flapping while the first reconnect verification is inside its critical section (second disconnect, change of owner, second reconnect placed by the explorer); a new term acquired inside the grace period of an earlier disconnect; a reconnect notification against a running stop",
+    "C11": "; plus: flapping while the first reconnect verification is inside its critical section (second disconnect, change of owner, second reconnect placed by the explorer); a new term acquired inside the grace period of an earlier disconnect; a reconnect notification against a running stop; one or two late notifications of any kind (disconnect / reconnect / closed), queued on the client's dispatcher before the monitor unregistered its handlers, delivered after a completed Stop or StopWithContext",
     "C12": "; a term re-acquired inside the heartbeat interval in which the previous one ended (one check per interval); after a health demotion the record is removed and the instance must lead again; a checker that ignores its context and answers after 150 ms (explorer's choice per tick), thresholds 1 and 2",
     "C13": "; plus a leader that followed before (watch loop running) whose record is overwritten with arbitrary bytes: demoted once, Status and Stop return",
     "C14": "; plus: the consumer takes 0..n of up to 4 emitted entries (with or without ever calling Updates) and stops the watch: no forwarding goroutine is left",
